@@ -233,8 +233,8 @@ Lemma find_some_in {A} (P : A -> bool) l r : find P l = Some r -> In r l /\ P r 
 Proof. apply find_some. Qed.
 
 (* ---- Table::insert *)
-Definition mk_entry (src : N * N) (pid lpid : N) (nh : option N) (tok : N) (at_ : attr) (filtered inv : bool) : entry :=
-  {| e_peer := fst src; e_sess := snd src; e_pid := pid; e_lpid := lpid; e_nh := nh;
+Definition mk_entry (src : N * N) (pid lpid : N) (nh : option nexthop) (tok : N) (at_ : attr) (filtered inv : bool) : entry :=
+  {| e_peer := fst src; e_sess := snd src; e_pid := pid; e_lpid := lpid; e_nhv := nh;
      e_tok := tok; e_attr := at_; e_filt := filtered; e_inv := inv |}.
 
 Lemma do_insert_l fl d src pid nh tok at_ filtered inv :
@@ -472,10 +472,10 @@ Lemma reset_one_ok fl inv pol p d0 acc e0 :
   dstep_ok fl fl p d0 acc -> dstep_ok fl fl p d0 (reset_one c V fl inv pol p acc e0).
 Proof.
   intro HA. unfold reset_one.
-  destruct (apply_import c pol (e_peer e0) (e_nh e0)) as [filtered nh].
-  set (invf := match nh with Some a => memN a inv | None => false end).
-  set (nht := if negb (e_peer e0 =? 0) && negb (optN_eqb (lookup_nexthop (fst acc) (e_peer e0) (e_pid e0)) nh)
-              then opt_reg nh ++ opt_unreg (lookup_nexthop (fst acc) (e_peer e0) (e_pid e0)) else []).
+  destruct (apply_import c pol (e_peer e0) (e_nhv e0)) as [filtered nh].
+  set (invf := match oaddr nh with Some a => memN a inv | None => false end).
+  set (nht := if negb (e_peer e0 =? 0) && negb (optN_eqb (lookup_nexthop (fst acc) (e_peer e0) (e_pid e0)) (oaddr nh))
+              then opt_reg (oaddr nh) ++ opt_unreg (lookup_nexthop (fst acc) (e_peer e0) (e_pid e0)) else []).
   pose proof (do_insert_ok fl (fst acc) (esrc e0) (e_pid e0) nh (e_tok e0) (e_attr e0) filtered invf) as HO.
   pose proof (do_insert_sorted fl (fst acc) (esrc e0) (e_pid e0) nh (e_tok e0) (e_attr e0) filtered invf) as HS.
   destruct (do_insert c fl (fst acc) (esrc e0) (e_pid e0) nh (e_tok e0) (e_attr e0) filtered invf) as [d' ch].
@@ -621,6 +621,105 @@ Lemma restale_empty peer fl' p d : d_l d = [] ->
   snd (let '(d', ch) := do_restale c fl' peer d in (d', distribute_opt c V fl' p ch)) = [].
 Proof. intro H. unfold do_restale. rewrite H. cbn. auto. Qed.
 
+(* restale_llgr: several changes for one destination, all carrying the same path
+   list; the extra requests re-apply the same value *)
+Definition llgr_f (fl' : flags) (peer : N) (p : prefix) (d : dest) : dest * list req :=
+  let '(d', chs) := do_restale_llgr c fl' peer d in (d', flat_map (distribute c V fl' p) chs).
+
+Definition chgs_ok (fl fl' : flags) (d d' : dest) (chs : list change) : Prop :=
+  match chs with
+  | [] => chg_ok fl fl' d d' None
+  | _ => forall x, In x chs -> chg_ok fl fl' d d' (Some x)
+  end.
+
+Lemma chgs_same_tracked fl' p k valf d' chs :
+  tracked p k valf -> (forall x, In x chs -> chg_ok fl' fl' d' d' (Some x)) ->
+  fold_left (fib_step k) (flat_map (distribute c V fl' p) chs) (valf fl' d') = valf fl' d'.
+Proof.
+  intros HT. induction chs as [|x t IH]; intro H; cbn [flat_map fold_left]; auto.
+  rewrite fold_fib_app. change (distribute c V fl' p x) with (distribute_opt c V fl' p (Some x)).
+  rewrite (chg_ok_tracked fl' fl' p k valf d' d' (Some x) HT (H x (or_introl eq_refl))).
+  apply IH. intros y Hy. apply H. right; auto.
+Qed.
+
+Lemma chgs_ok_tracked fl fl' p k valf d d' chs :
+  tracked p k valf -> chgs_ok fl fl' d d' chs ->
+  fold_left (fib_step k) (flat_map (distribute c V fl' p) chs) (valf fl d) = valf fl' d'.
+Proof.
+  intros HT HC. destruct chs as [|x t].
+  - apply (chg_ok_tracked fl fl' p k valf d d' None HT HC).
+  - cbn [flat_map]. rewrite fold_fib_app. change (distribute c V fl' p x) with (distribute_opt c V fl' p (Some x)).
+    rewrite (chg_ok_tracked fl fl' p k valf d d' (Some x) HT (HC x (or_introl eq_refl))).
+    apply chgs_same_tracked; auto. intros y Hy. apply (HC y). right; auto.
+Qed.
+
+Lemma dstep_of_chgs fl fl' p d d' chs :
+  (ssorted c fl (d_l d) -> chgs_ok fl fl' d d' chs) ->
+  (ssorted c fl (d_l d) -> ssorted c fl' (d_l d')) ->
+  dstep_ok fl fl' p d (d', flat_map (distribute c V fl' p) chs).
+Proof.
+  intros HC HS. constructor; cbn [fst snd]; auto.
+  - apply Forall_forall. intros r Hr. apply in_flat_map in Hr. destruct Hr as [x [_ Hr]].
+    pose proof (distribute_own fl' p x) as HO. rewrite Forall_forall in HO. auto.
+  - intros k valf HT H. apply chgs_ok_tracked; auto.
+Qed.
+
+Lemma do_restale_llgr_fst fl' peer d :
+  fst (do_restale_llgr c fl' peer d) = fst (do_restale c fl' peer d).
+Proof.
+  unfold do_restale_llgr, do_restale.
+  destruct (negb (existsb (fun e => e_peer e =? peer) (d_l d))); reflexivity.
+Qed.
+
+Lemma do_restale_llgr_ok peer fl fl' d :
+  flags_off peer fl fl' -> ssorted c fl (d_l d) ->
+  chgs_ok fl fl' d (fst (do_restale_llgr c fl' peer d)) (snd (do_restale_llgr c fl' peer d)).
+Proof.
+  intros HF HS. pose proof (do_restale_ok peer fl fl' d HF HS) as HO.
+  rewrite <- do_restale_llgr_fst in HO.
+  unfold do_restale_llgr, do_restale in *.
+  destruct (existsb (fun e => e_peer e =? peer) (d_l d)) eqn:EX; cbn [negb fst snd] in *.
+  2:{ exact HO. }
+  set (l' := isort c fl' (d_l d)) in *.
+  set (marked := filter (fun e => e_peer e =? peer) (eligs l')).
+  set (bm := match best l', marked with Some b, m :: _ => e_lpid m =? e_lpid b | _, _ => false end).
+  destruct (existsb (fun e => (e_peer e =? peer) && negb (e_filt e)) (d_l d)) eqn:EU.
+  - (* some unfiltered path of the peer: changes are emitted *)
+    rewrite orb_true_r. destruct marked as [|m0 rest]; cbn [chgs_ok].
+    + intros x [<-|[]]. cbn [chg_ok ch_cur ch_bc ch_ac d_l]. split; auto. apply orb_true_r.
+    + intros x [<-|Hx]; cbn [chg_ok ch_cur ch_bc ch_ac d_l].
+      * split; auto. apply orb_true_r.
+      * apply in_map_iff in Hx. destruct Hx as [y [<- _]]. cbn. split; auto.
+  - rewrite orb_false_r in *.
+    (* no unfiltered path of the peer: nothing is marked, the old criterion decides *)
+    assert (HM : marked = []).
+    { unfold marked. destruct (filter (fun e => e_peer e =? peer) (eligs l')) as [|m0 rest] eqn:EM; auto.
+      exfalso. assert (HIn : In m0 (filter (fun e => e_peer e =? peer) (eligs l'))) by (rewrite EM; cbn; auto).
+      apply filter_In in HIn. destruct HIn as [HIn Hp]. unfold eligs in HIn. apply filter_In in HIn.
+      destruct HIn as [HIn He]. apply isort_in in HIn.
+      assert (existsb (fun e => (e_peer e =? peer) && negb (e_filt e)) (d_l d) = true); try congruence.
+      apply existsb_exists. exists m0. split; auto. rewrite Hp. unfold elig in He.
+      apply andb_true_iff in He. destruct He as [He _]. rewrite He. auto. }
+    assert (HB : bm = false).
+    { unfold bm. rewrite HM. destruct (best l'); auto. }
+    rewrite HB, orb_false_r, HM.
+    destruct (negb (olp_eqb (best (d_l d)) (best l'))) eqn:EB; cbn [chgs_ok] in *.
+    + intros x [<-|[]]. exact HO.
+    + exact HO.
+Qed.
+
+Lemma llgr_dstep peer fl fl' p d : flags_off peer fl fl' -> dstep_ok fl fl' p d (llgr_f fl' peer p d).
+Proof.
+  intro HF. unfold llgr_f. pose proof (do_restale_llgr_ok peer fl fl' d HF) as H1.
+  pose proof (do_restale_sorted peer fl fl' d HF) as H2. rewrite <- do_restale_llgr_fst in H2.
+  destruct (do_restale_llgr c fl' peer d) as [d' chs]. cbn [fst snd] in *.
+  apply dstep_of_chgs; auto.
+Qed.
+
+Lemma llgr_empty peer fl' p d : d_l d = [] ->
+  d_l (fst (llgr_f fl' peer p d)) = [] /\ snd (llgr_f fl' peer p d) = [].
+Proof. intro H. unfold llgr_f, do_restale_llgr. rewrite H. cbn. auto. Qed.
+
 Lemma validity_dstep a r fl p d :
   dstep_ok fl fl p d (let '(d', ch) := do_validity a r d in (d', distribute_opt c V fl p ch)).
 Proof.
@@ -686,16 +785,16 @@ Proof.
   - (* Insert *)
     destruct (apply_import c (s_pol s) peer nh) as [filtered nh'].
     pose proof (do_insert_ok (s_fl s) (s_get s p) (peer, sess) pid nh' tok (attr_of c tok) filtered
-                  (match nh' with Some a => memN a (s_inv s) | None => false end)) as HO.
+                  (match oaddr nh' with Some a => memN a (s_inv s) | None => false end)) as HO.
     pose proof (do_insert_sorted (s_fl s) (s_get s p) (peer, sess) pid nh' tok (attr_of c tok) filtered
-                  (match nh' with Some a => memN a (s_inv s) | None => false end)) as HS.
+                  (match oaddr nh' with Some a => memN a (s_inv s) | None => false end)) as HS.
     destruct (do_insert c (s_fl s) (s_get s p) (peer, sess) pid nh' tok (attr_of c tok) filtered _) as [d' ch].
     cbn [fst snd] in *. unfold Inv. cbn [s_keys s_get s_fl].
     destruct H as [I1 I2 I3 I4].
     apply upd_inv with (ks := s_keys s); auto.
     + constructor; auto.
     + pose proof (dstep_of_chg (s_fl s) (s_fl s) p (s_get s p) d' ch
-                    (nht_register peer nh' (lookup_nexthop (s_get s p) peer pid)) []
+                    (nht_register peer (oaddr nh') (lookup_nexthop (s_get s p) peer pid)) []
                     (fun _ => HO) HS) as HD.
       rewrite app_nil_r in HD. apply HD; [|constructor].
       unfold nht_register. destruct (peer =? 0); [constructor|].
@@ -723,13 +822,14 @@ Proof.
   - apply Inv_purge; auto.
   - (* MarkLlgr *)
     set (fl' := {| f_stale := f_stale (s_fl s); f_llgr := srcs_of s peer ++ f_llgr (s_fl s) |}).
-    pose proof (sweep_inv s reqs fl'
-                  (fun p d => let '(d', ch) := do_restale c fl' peer d in (d', distribute_opt c V fl' p ch)) H) as H1.
-    destruct (sweep s fl' _) as [s1 r1]. cbn [fst snd] in H1.
+    pose proof (sweep_inv s reqs fl' (llgr_f fl' peer) H) as H1.
+    change (fun p d => let '(d', chs) := do_restale_llgr c fl' peer d in (d', flat_map (distribute c V fl' p) chs))
+      with (llgr_f fl' peer).
+    destruct (sweep s fl' (llgr_f fl' peer)) as [s1 r1]. cbn [fst snd] in H1.
     assert (HI1 : Inv s1 (reqs ++ r1)).
     { apply H1.
-      - intro q. apply restale_dstep with (peer := peer). apply flags_off_llgr.
-      - intros q Hq. apply restale_empty; auto. }
+      - intro q. apply llgr_dstep with (peer := peer). apply flags_off_llgr.
+      - intros q Hq. apply llgr_empty; auto. }
     pose proof (Inv_purge s1 (reqs ++ r1) (fun e => (e_peer e =? peer) && a_nollgr (e_attr e)) HI1) as H2.
     destruct (purge_pass c V s1 _) as [s2 r2]. cbn [fst snd] in *. rewrite app_assoc. auto.
   - apply Inv_purge; auto.
@@ -819,7 +919,7 @@ Qed.
 Lemma do_insert_invok fl d src pid nh tok at_ filtered inv :
   Forall (inv_ok inv) (d_l d) ->
   Forall (inv_ok inv) (d_l (fst (do_insert c fl d src pid nh tok at_ filtered
-                                   (match nh with Some a => memN a inv | None => false end)))).
+                                   (match oaddr nh with Some a => memN a inv | None => false end)))).
 Proof.
   intro H. rewrite Forall_forall in *. intros x Hx. apply do_insert_in in Hx.
   destruct Hx as [[lp ->]|Hx]; auto. reflexivity.
@@ -840,7 +940,7 @@ Proof.
   intros snap H. change (d_l d) with (d_l (fst (d, @nil req))) in H.
   revert H. generalize (d, @nil req) as acc. induction snap as [|e0 t IH]; cbn [fold_left]; auto.
   intros acc H. apply IH. unfold reset_one.
-  destruct (apply_import c pol (e_peer e0) (e_nh e0)) as [filtered nh].
+  destruct (apply_import c pol (e_peer e0) (e_nhv e0)) as [filtered nh].
   pose proof (do_insert_invok fl (fst acc) (esrc e0) (e_pid e0) nh (e_tok e0) (e_attr e0) filtered inv H) as HI.
   destruct (do_insert c fl (fst acc) (esrc e0) (e_pid e0) nh (e_tok e0) (e_attr e0) filtered _) as [d' ch].
   cbn [fst] in *. auto.
@@ -871,6 +971,9 @@ Proof.
     + unfold memN. cbn [existsb]. fold (memN x inv). destruct (x =? a); auto.
 Qed.
 
+Lemma e_nh_set_inv b y : e_nh (set_inv b y) = e_nh y.
+Proof. reflexivity. Qed.
+
 Lemma validity_invok a r inv d :
   Forall (inv_ok inv) (d_l d) ->
   Forall (inv_ok (inv_after inv a r)) (d_l (fst (do_validity a r d))).
@@ -880,7 +983,7 @@ Proof.
     cbn [negb fst d_l].
   - rewrite Forall_forall in *. intros x Hx. apply in_map_iff in Hx. destruct Hx as [y [<- Hy]].
     specialize (H y Hy). unfold inv_ok in *. destruct (nh_is a y) eqn:EN.
-    + cbn [set_inv e_inv e_nh]. unfold nh_is in EN. apply optN_eqb_eq in EN. rewrite EN.
+    + rewrite e_nh_set_inv. cbn [set_inv e_inv]. unfold nh_is in EN. apply optN_eqb_eq in EN. rewrite EN.
       rewrite memN_inv_after, N.eqb_refl. auto.
     + rewrite H. destruct (e_nh y) as [b|] eqn:EB; auto. rewrite memN_inv_after.
       unfold nh_is in EN. rewrite EB in EN. cbn in EN. rewrite EN. auto.
@@ -918,6 +1021,15 @@ Proof.
   apply Forall_sub with (l := d_l (s_get s p)); [|apply H]. intros x Hx. apply isort_in in Hx. auto.
 Qed.
 
+Lemma InvF_llgr s fl' peer : InvF s -> InvF (fst (sweep s fl' (llgr_f fl' peer))).
+Proof.
+  intros H p. unfold sweep. cbn [fst s_get s_inv]. specialize (H p). unfold llgr_f.
+  pose proof (do_restale_llgr_fst fl' peer (s_get s p)) as HF.
+  destruct (do_restale_llgr c fl' peer (s_get s p)) as [d' chs]. cbn [fst] in *. rewrite HF.
+  unfold do_restale. destruct (negb (existsb (fun e => e_peer e =? peer) (d_l (s_get s p)))); cbn [fst d_l]; auto.
+  apply Forall_sub with (l := d_l (s_get s p)); [|apply H]. intros x Hx. apply isort_in in Hx. auto.
+Qed.
+
 Lemma step_invF s o : InvF s -> InvF (fst (step c V s o)).
 Proof.
   intro H. destruct o; cbn [step].
@@ -932,8 +1044,11 @@ Proof.
   - apply InvF_purge; auto.
   - apply InvF_restale; auto.
   - apply InvF_purge; auto.
-  - pose proof (InvF_restale s {| f_stale := f_stale (s_fl s); f_llgr := srcs_of s peer ++ f_llgr (s_fl s) |} peer H) as H1.
-    destruct (sweep s _ _) as [s1 r1]. cbn [fst] in H1.
+  - set (fl' := {| f_stale := f_stale (s_fl s); f_llgr := srcs_of s peer ++ f_llgr (s_fl s) |}).
+    pose proof (InvF_llgr s fl' peer H) as H1.
+    change (fun p d => let '(d', chs) := do_restale_llgr c fl' peer d in (d', flat_map (distribute c V fl' p) chs))
+      with (llgr_f fl' peer).
+    destruct (sweep s fl' (llgr_f fl' peer)) as [s1 r1]. cbn [fst] in H1.
     pose proof (InvF_purge s1 (fun e => (e_peer e =? peer) && a_nollgr (e_attr e)) H1) as H2.
     destruct (purge_pass c V s1 _) as [s2 r2]. cbn [fst] in *. auto.
   - apply InvF_purge; auto.
@@ -1105,16 +1220,17 @@ Ltac ref_crush :=
 Lemma do_insert_ref fl d peer sess pid nh tok at_ filtered inv a :
   ref_ok a d (fst (do_insert c fl d (peer, sess) pid nh tok at_ filtered inv),
               if peer =? 0 then [] else
-              if optN_eqb (lookup_nexthop d peer pid) nh then [] else opt_reg nh ++ opt_unreg (lookup_nexthop d peer pid)) /\
+              if optN_eqb (lookup_nexthop d peer pid) (oaddr nh) then []
+              else opt_reg (oaddr nh) ++ opt_unreg (lookup_nexthop d peer pid)) /\
   ref_ok a d (fst (do_insert c fl d (peer, sess) pid nh tok at_ filtered inv),
-              nht_register peer nh (lookup_nexthop d peer pid)).
+              nht_register peer (oaddr nh) (lookup_nexthop d peer pid)).
 Proof.
   destruct (do_insert_l fl d (peer, sess) pid nh tok at_ filtered inv) as [lp HL].
   unfold ref_ok. cbn [fst snd]. rewrite HL, cnt_insert_sorted. unfold lookup_nexthop, nht_register.
   cbn [fst snd mk_entry].
-  assert (HU : uses a (mk_entry (peer, sess) pid lp nh tok at_ filtered inv) = negb (peer =? 0) && optN_eqb nh (Some a))
+  assert (HU : uses a (mk_entry (peer, sess) pid lp nh tok at_ filtered inv) = negb (peer =? 0) && optN_eqb (oaddr nh) (Some a))
     by reflexivity.
-  rewrite HU. clear HU HL.
+  rewrite HU. clear HU HL. set (onh := oaddr nh). clearbody onh.
   destruct (find (same_path peer pid) (d_l d)) as [r|] eqn:EF.
   - rewrite (cnt_remove_first a _ _ _ EF).
     apply find_some in EF. destruct EF as [_ EP]. unfold same_path in EP. apply andb_true_iff in EP.
@@ -1122,12 +1238,12 @@ Proof.
     set (k := cnt a (remove_first (same_path peer pid) (d_l d))). clearbody k.
     destruct (peer =? 0) eqn:EZ; cbn [negb andb].
     + split; intros n Hn; ref_crush.
-    + destruct nh as [x|], (e_nh r) as [y|]; split; intros n Hn; ref_crush.
+    + destruct onh as [x|], (e_nh r) as [y|]; split; intros n Hn; ref_crush.
   - rewrite (remove_first_none _ _ EF).
     set (k := cnt a (d_l d)). clearbody k.
     destruct (peer =? 0) eqn:EZ; cbn [negb andb].
     + split; intros n Hn; ref_crush.
-    + destruct nh as [x|]; split; intros n Hn; ref_crush.
+    + destruct onh as [x|]; split; intros n Hn; ref_crush.
 Qed.
 
 Lemma ref_ok_apply_post a d d' rq post :
@@ -1200,18 +1316,18 @@ Lemma reset_one_ref fl inv pol p d0 acc e0 a :
   ref_ok a d0 acc -> ref_ok a d0 (reset_one c V fl inv pol p acc e0).
 Proof.
   intro HA. unfold reset_one.
-  destruct (apply_import c pol (e_peer e0) (e_nh e0)) as [filtered nh].
-  set (invf := match nh with Some a => memN a inv | None => false end).
+  destruct (apply_import c pol (e_peer e0) (e_nhv e0)) as [filtered nh].
+  set (invf := match oaddr nh with Some a => memN a inv | None => false end).
   pose proof (do_insert_ref fl (fst acc) (e_peer e0) (e_sess e0) (e_pid e0) nh (e_tok e0) (e_attr e0) filtered invf a) as [HR _].
   unfold esrc.
   destruct (do_insert c fl (fst acc) (e_peer e0, e_sess e0) (e_pid e0) nh (e_tok e0) (e_attr e0) filtered invf) as [d' ch].
   cbn [fst snd] in *.
-  assert (HE : (if negb (e_peer e0 =? 0) && negb (optN_eqb (lookup_nexthop (fst acc) (e_peer e0) (e_pid e0)) nh)
-                then opt_reg nh ++ opt_unreg (lookup_nexthop (fst acc) (e_peer e0) (e_pid e0)) else []) =
+  assert (HE : (if negb (e_peer e0 =? 0) && negb (optN_eqb (lookup_nexthop (fst acc) (e_peer e0) (e_pid e0)) (oaddr nh))
+                then opt_reg (oaddr nh) ++ opt_unreg (lookup_nexthop (fst acc) (e_peer e0) (e_pid e0)) else []) =
                (if e_peer e0 =? 0 then [] else
-                if optN_eqb (lookup_nexthop (fst acc) (e_peer e0) (e_pid e0)) nh then []
-                else opt_reg nh ++ opt_unreg (lookup_nexthop (fst acc) (e_peer e0) (e_pid e0)))).
-  { destruct (e_peer e0 =? 0); cbn; auto. destruct (optN_eqb _ nh); auto. }
+                if optN_eqb (lookup_nexthop (fst acc) (e_peer e0) (e_pid e0)) (oaddr nh) then []
+                else opt_reg (oaddr nh) ++ opt_unreg (lookup_nexthop (fst acc) (e_peer e0) (e_pid e0)))).
+  { destruct (e_peer e0 =? 0); cbn; auto. destruct (optN_eqb _ (oaddr nh)); auto. }
   rewrite HE.
   pose proof (ref_ok_apply_post a (fst acc) d' _ (distribute_opt c V fl p ch) HR (distribute_opt_apply_only fl p ch)) as H2.
   pose proof (ref_ok_compose a d0 acc _ HA H2) as H3. cbn [fst snd] in H3.
@@ -1352,6 +1468,25 @@ Proof.
   - intros q Hq. apply restale_empty; auto.
 Qed.
 
+Lemma distribute_list_apply_only fl p chs : apply_only (flat_map (distribute c V fl p) chs).
+Proof.
+  apply Forall_forall. intros r Hr. apply in_flat_map in Hr. destruct Hr as [x [_ Hr]].
+  pose proof (distribute_opt_apply_only fl p (Some x)) as HA. unfold apply_only in HA.
+  rewrite Forall_forall in HA. apply HA. exact Hr.
+Qed.
+
+Lemma llgr_invR s reqs fl' peer :
+  InvR s reqs ->
+  InvR (fst (sweep s fl' (llgr_f fl' peer))) (reqs ++ snd (sweep s fl' (llgr_f fl' peer))).
+Proof.
+  intro H. apply sweep_invR; auto.
+  - intros a q. pose proof (do_restale_ref fl' peer (s_get s q) a) as HR.
+    rewrite <- do_restale_llgr_fst in HR. unfold llgr_f.
+    destruct (do_restale_llgr c fl' peer (s_get s q)) as [d' chs]. cbn [fst snd] in *.
+    apply (ref_ok_apply_post a (s_get s q) d' [] _ HR). apply distribute_list_apply_only.
+  - intros q Hq. apply llgr_empty; auto.
+Qed.
+
 Lemma step_invR s reqs o :
   wf_op o = true -> InvR s reqs -> InvR (fst (step c V s o)) (reqs ++ snd (step c V s o)).
 Proof.
@@ -1359,7 +1494,7 @@ Proof.
   - (* Insert *)
     destruct (apply_import c (s_pol s) peer nh) as [filtered nh'].
     pose proof (fun a => proj2 (do_insert_ref (s_fl s) (s_get s p) peer sess pid nh' tok (attr_of c tok) filtered
-                  (match nh' with Some a => memN a (s_inv s) | None => false end) a)) as HR.
+                  (match oaddr nh' with Some a => memN a (s_inv s) | None => false end) a)) as HR.
     destruct (do_insert c (s_fl s) (s_get s p) (peer, sess) pid nh' tok (attr_of c tok) filtered _) as [d' ch].
     cbn [fst snd] in *. destruct H as [R1 R2 R3].
     constructor; cbn [s_keys s_get].
@@ -1396,8 +1531,11 @@ Proof.
   - apply purge_invR; auto. intros e He. lia.
   - apply restale_invR; auto.
   - apply purge_invR; auto. intros e He. lia.
-  - pose proof (restale_invR s reqs {| f_stale := f_stale (s_fl s); f_llgr := srcs_of s peer ++ f_llgr (s_fl s) |} peer H) as H1.
-    destruct (sweep s _ _) as [s1 r1]. cbn [fst snd] in H1.
+  - set (fl' := {| f_stale := f_stale (s_fl s); f_llgr := srcs_of s peer ++ f_llgr (s_fl s) |}).
+    pose proof (llgr_invR s reqs fl' peer H) as H1.
+    change (fun p d => let '(d', chs) := do_restale_llgr c fl' peer d in (d', flat_map (distribute c V fl' p) chs))
+      with (llgr_f fl' peer).
+    destruct (sweep s fl' (llgr_f fl' peer)) as [s1 r1]. cbn [fst snd] in H1.
     assert (HWs : forall e, (e_peer e =? peer) && a_nollgr (e_attr e) = true -> e_peer e <> 0) by (intros e He; lia).
     pose proof (purge_invR s1 (reqs ++ r1) _ HWs H1) as H2.
     destruct (purge_pass c V s1 _) as [s2 r2]. cbn [fst snd] in *. rewrite app_assoc. auto.
@@ -1475,7 +1613,7 @@ Definition ex_cfg : cfg :=
 
 (* C20-1: a path tied with the best is added: best_changed is false, no request *)
 Definition ex_ops_tied : list op :=
-  [Insert 1 0 (0, 1) 0 (Some 1) 0; Insert 2 0 (0, 1) 0 (Some 2) 2].
+  [Insert 1 0 (0, 1) 0 (Some (NhV4 1)) 0; Insert 2 0 (0, 1) 0 (Some (NhV4 2)) 2].
 
 Lemma C20_fib_replay_eq_ecmp_of_best_legacy_refuted :
   exists (c : cfg) (ops : list op) (p : prefix),
@@ -1492,7 +1630,7 @@ Proof. vm_compute. auto. Qed.
 (* C20-2: the new best path of a VPN prefix is not importable into a VRF that
    holds the previous one: nothing is sent to that VRF *)
 Definition ex_ops_vrf : list op :=
-  [Insert 1 0 (1, 1) 0 (Some 1) 0; Insert 2 0 (1, 1) 0 (Some 2) 1].
+  [Insert 1 0 (1, 1) 0 (Some (NhV4 1)) 0; Insert 2 0 (1, 1) 0 (Some (NhV4 2)) 1].
 
 Lemma C20_vrf_fib_replay_eq_ecmp_of_best_legacy_refuted :
   exists (c : cfg) (ops : list op) (i id : N) (imp : list N),
@@ -1519,8 +1657,8 @@ Proof. vm_compute. auto. Qed.
 
 (* non-vacuity of the hypotheses and of the interesting branches *)
 Definition ex_ops_long : list op :=
-  [Insert 1 0 (0, 1) 0 (Some 1) 0; Insert 2 0 (0, 1) 0 (Some 2) 2; Insert 3 0 (0, 1) 1 (Some 1) 0;
-   NhValidity 2 false; MarkStale 1; Insert 1 1 (0, 1) 0 (Some 3) 0; DropStale 1;
+  [Insert 1 0 (0, 1) 0 (Some (NhV4 1)) 0; Insert 2 0 (0, 1) 0 (Some (NhV4 2)) 2; Insert 3 0 (0, 1) 1 (Some (NhV4 1)) 0;
+   NhValidity 2 false; MarkStale 1; Insert 1 1 (0, 1) 0 (Some (NhV4 3)) 0; DropStale 1;
    SetPolicy 2; SoftResetIn 2; NhValidity 2 true; Remove 3 0 (0, 1) 1].
 
 Example ex_wf : forallb wf_op ex_ops_long = true.
@@ -1535,11 +1673,23 @@ Example ex_long_values :
 Proof. vm_compute. auto. Qed.
 
 Example ex_unreachable :
-  let ops := [Insert 1 0 (0, 1) 0 (Some 1) 0; Insert 2 0 (0, 1) 0 (Some 2) 2; NhValidity 2 false] in
+  let ops := [Insert 1 0 (0, 1) 0 (Some (NhV4 1)) 0; Insert 2 0 (0, 1) 0 (Some (NhV4 2)) 2; NhValidity 2 false] in
   let s := fst (run ex_cfg Fixed st0 ops) in
   unreachable_after ops 2 false = true /\
   length (d_l (s_get s (0, 1))) = 2%nat /\ length (selectable (d_l (s_get s (0, 1)))) = 1%nat /\
   fib_replay (snd (run ex_cfg Fixed st0 ops)) (None, (0, 1)) = [1].
+Proof. vm_compute. auto. Qed.
+
+(* the three next-hop forms share the tracked address: a report for the global
+   address excludes the path received with the 32-byte global + link-local form *)
+Example ex_unreachable_link_local :
+  let ops := [Insert 3 0 (0, 1) 0 (Some (NhV6LL 101 2)) 0; Insert 2 0 (0, 1) 0 (Some (NhV6 102)) 2;
+              Insert 1 0 (0, 1) 1 (Some (NhV4 1)) 0; NhValidity 101 false] in
+  let s := fst (run ex_cfg Fixed st0 ops) in
+  unreachable_after ops 101 false = true /\
+  length (d_l (s_get s (0, 1))) = 3%nat /\ length (selectable (d_l (s_get s (0, 1)))) = 2%nat /\
+  fib_replay (snd (run ex_cfg Fixed st0 ops)) (None, (0, 1)) = [1; 102] /\
+  ref_replay (snd (run ex_cfg Fixed st0 ops)) 101 = 1.
 Proof. vm_compute. auto. Qed.
 
 Example ex_vrf_hyps : NoDup (map fst (c_vrfs ex_cfg)) /\ In (5, [1]) (c_vrfs ex_cfg).
